@@ -5,6 +5,7 @@ Open Scope N_scope.
 
 Section StmtInd.
   Variable P : stmt -> Prop.
+  Hypothesis Hasg : forall t, P (SAssignT t).
   Hypothesis Htext : P SText.
   Hypothesis Hbreak : P SBreak.
   Hypothesis Hcont : P SContinue.
@@ -20,7 +21,7 @@ Section StmtInd.
     let go := fix go (l : list stmt) : Forall P l :=
       match l with [] => Forall_nil P | x :: r => Forall_cons x (stmt_ind' x) (go r) end in
     match s with
-    | SText => Htext | SBreak => Hbreak | SContinue => Hcont | SCallKw k => Hkw k | SUse n => Huse n
+    | SAssignT t => Hasg t | SText => Htext | SBreak => Hbreak | SContinue => Hcont | SCallKw k => Hkw k | SUse n => Huse n
     | SIf b e => Hif b e (go b) (go e)
     | SFor r b e => Hfor r b e (go b) (go e)
     | SInline b => Hinl b (go b)
@@ -33,6 +34,7 @@ End StmtInd.
 Lemma gen_eq il s :
   gen il s =
   match s with
+  | SAssignT t => if can_assign t then Ok [PAssign t] else SyntaxErr
   | SText => Ok [PSimple]
   | SBreak => if il then Ok [PBreak] else SyntaxErr
   | SContinue => if il then Ok [PContinue] else SyntaxErr
@@ -48,6 +50,14 @@ Lemma gen_eq il s :
   | SBlock b => match gens false b with Ok pb => Ok [PDef [] pb; PSimple] | SyntaxErr => SyntaxErr end
   end.
 Proof. destruct s; try reflexivity. Qed.
+
+(* what jinja's can_assign accepts, the Python compiler can assign to *)
+Lemma can_assign_py_ok : forall t, can_assign t = true -> py_target_ok t = true.
+Proof.
+  fix IH 1. intros [n| |l]; cbn [can_assign py_target_ok]; [reflexivity|discriminate|].
+  induction l as [|x r IHl]; cbn [forallb]; [reflexivity|].
+  intros H. apply andb_true_iff in H. destruct H as [Hx Hr]. now rewrite (IH x Hx), (IHl Hr).
+Qed.
 
 Lemma memb_in x l : memb x l = true <-> In x l.
 Proof.
@@ -104,8 +114,10 @@ Section Wf.
 
   Theorem gen_wf : forall s il t, gen il s = Ok t -> forallb (py_ok pynorm il) t = true.
   Proof.
-    induction s as [| | |k|n|b e Hb He|r b e Hb He|b Hb|ps b Hb|ps k b Hb|b Hb] using stmt_ind';
+    induction s as [tg| | | |k|n|b e Hb He|r b e Hb He|b Hb|ps b Hb|ps k b Hb|b Hb] using stmt_ind';
       intros il t H; rewrite gen_eq in H.
+    - destruct (can_assign tg) eqn:E; [|discriminate]. injection H as <-. cbn [forallb py_ok andb].
+      now rewrite (can_assign_py_ok tg E).
     - injection H as <-. reflexivity.
     - destruct il; [injection H as <-; reflexivity|discriminate].
     - destruct il; [injection H as <-; reflexivity|discriminate].
